@@ -355,6 +355,67 @@ PROPS["C10"] = {
                  "trace replay against TaffyTree + property monitor on the implementation's layouts",
 }
 
+PROPS["C11"] = {
+    "modules": ["TaffyVerif.Props.C11"],
+    "theorems": [
+        "C11.blockCallSite_area", "C11.flexCallSite_facts", "C11.gridCallSite_facts",
+        "C11.block_start_inset_eq_x", "C11.block_start_inset_eq_y", "C11.block_end_inset_eq_x", "C11.block_end_inset_eq_y",
+        "C11.block_stretch_size_eq_x", "C11.block_stretch_size_eq_y", "C11.block_min_floor",
+        "C11.block_single_auto_margin_absorbs_left", "C11.block_single_auto_margin_absorbs_right",
+        "C11.block_single_auto_margin_absorbs_top", "C11.block_single_auto_margin_absorbs_bottom",
+        "C11.block_two_auto_margins_split_partial_x", "C11.block_two_auto_margins_split_partial_y",
+        "C11.block_two_auto_margins_not_split",
+        "C11.flex_start_inset_eq_x", "C11.flex_start_inset_eq_y", "C11.flex_end_inset_eq_x", "C11.flex_end_inset_eq_y",
+        "C11.flex_stretch_size_eq_x", "C11.flex_stretch_size_eq_y", "C11.flex_min_floor",
+        "C11.grid_start_inset_eq_x", "C11.grid_start_inset_eq_y", "C11.grid_end_inset_eq_x", "C11.grid_end_inset_eq_y",
+        "C11.grid_stretch_size_eq_x", "C11.grid_stretch_size_eq_y", "C11.grid_min_floor",
+        "C11.grid_end_inset_eq_needs_nonneg_extent",
+        "C11.blockReported_of_length_border",
+        "C11.block_monitor_sound", "C11.flex_monitor_sound", "C11.grid_monitor_sound",
+    ],
+    "harness": "C11", "driver": "C11", "monitor": True,
+    "rule": "a real tree per case: container (block/flex/grid round-robin; size mostly definite lengths, sometimes auto/percent; "
+            "random padding, border (occasionally percent), overflow incl. scroll on either axis, scrollbar width 0/4/7.5/15, "
+            "box-sizing, min/max, all four flex directions, wrap-reverse, every justify/align value; grid without explicit tracks) "
+            "+ one absolutely positioned leaf with a uniformly drawn set/auto mask of the four insets (length incl. negative, percent), "
+            "size/min/max auto|length|percent, margins length (incl. negative)|percent|auto, aspect ratio 1/8, content-box 1/5, own "
+            "padding/border/scrollbar, measure context none|fixed|wrapping text; in 1/3 of the cases an in-flow sibling (flex/grid: "
+            "before or after, block: after). All numbers are small dyadics so f32 and ℚ agree exactly. Fixed cases first: the "
+            "witness of fix 37e5268 in all three containers, the two-auto-margin centring cases (40 and 60 in 100), the "
+            "negative-extent padding box. The model is fed the container's observed size and must reproduce the child's unrounded "
+            "layout bit for bit. Non-trivial = at least one inset is set; distinct = distinct request/answer transcripts.",
+    "trusted_base": [
+        "models of block.rs/flexbox.rs perform_absolute_layout_on_absolute_children and grid align_and_position_item/"
+        "align_item_within_area (+ their call sites) are hand-written (Model/AbsPos.lean), three separate transliterations; tied "
+        "to the code by bit-exact comparison of the child's whole Layout on generated trees",
+        "the child's answer to perform_child_layout is a universally quantified oracle in the theorems; in the correspondence run it "
+        "is Model/LeafOracle.lean (compute_leaf_layout + the harness' measure function), itself covered by the same comparison",
+        "theorems are over ℚ; Lean's Float32 +,-,*,/,<,max/min are assumed to be IEEE binary32 as Rust's; no theorem relates f32 "
+        "rounding to ℚ (the generated inputs are dyadic, the monitor compares with equality)",
+    ],
+    "assumptions": [
+        "the absolutely positioned child has grid-row/grid-column auto (grid area = padding box); explicit lines are C06/C08 territory",
+        "block copy: the container's reported border equals the border block.rs re-resolves against the container's own width "
+        "(true unless the border uses a percentage; then the equations hold in terms of the re-resolved border)",
+        "block call-site model: the abs child precedes the in-flow children (its static position is the content-box corner); the "
+        "theorems do not depend on the static position",
+        "calc() lengths are not modelled",
+    ],
+    "level_text": "For each of the three copies of the absolute-positioning code and each axis, for every container style, child style, "
+                  "container size and every answer of the child to perform_child_layout: a set start inset puts the margin-box start "
+                  "edge exactly that far from the padding-box start edge; otherwise a set end inset does the same at the end edge with "
+                  "the scrollbar gutter excluded (grid: for a padding box of non-negative extent; the negative case is proved to "
+                  "differ and reported as a known finding); both insets + auto size give size = clamp(max(extent − insets − margins, 0)) "
+                  "with the minimum floored at the child's padding+border; block: a single auto margin absorbs exactly the remaining "
+                  "space (the statement repaired by fix 37e5268). Two auto margins in the block copy split the space only if the style "
+                  "size is below the remaining space: proved, with the CSS-conforming statement refuted on a witness that is replayed "
+                  "on the implementation (known finding). Equations are stated in the container's reported layout.",
+    "level_note": "Trusted: Lean kernel; three hand-written transliterations (validated bit-exactly, 9 000 trees quick / 600 000 thorough, "
+                  "whole child Layout compared); leaf oracle model; Float32 = IEEE binary32. Axioms: propext, Classical.choice, Quot.sound "
+                  "(concrete witnesses by `decide +kernel`).",
+    "technique": "Lean 4 theorems over ℚ about three stage-by-stage transliterations + differential correspondence on real two/three-node trees",
+}
+
 HOOK_COMMITS = [
     "5207efe",
     "79decb2",
@@ -362,5 +423,5 @@ HOOK_COMMITS = [
 
 _pending = "check not built yet in this revision of /verif (planned, see DESIGN.md §8)"
 NOT_APPLICABLE = {p: _pending for p in
-                  ["C01", "C04", "C05", "C06", "C07", "C09", "C11", "C12", "C16", "C17", "C19"]}
+                  ["C01", "C04", "C05", "C06", "C07", "C09", "C12", "C16", "C17", "C19"]}
 
